@@ -11,3 +11,13 @@ func minInt(a, b int) int {
 	}
 	return b
 }
+
+// shortName strips a package qualifier: "metrics.wf" -> "wf".
+func shortName(n string) string {
+	for i := len(n) - 1; i >= 0; i-- {
+		if n[i] == '.' {
+			return n[i+1:]
+		}
+	}
+	return n
+}
